@@ -142,6 +142,14 @@ def scenario(ctx, p):
         md = ctx.choose("multi_disp", [1, 3] if p["nex"] < 2 else [3])
         reuse = ctx.int("diti_reuse")
         c.update(wl=wl, a=a, vol=vol, rng=rng, direction=direction, ex=ex, md=md, reuse=reuse, m=m)
+        if p["nex"] == 0 and ctx.choose("earlier", [None, "same-call"]) is not None:
+            # history: the same worklist already holds the record of an identical (equally reduced) reagent distribution
+            c["earlier"] = "same-call"
+            try:
+                wl.reagent_distribution("Earlier", rng["src_start"], rng["src_end"], "Plate0", 1, 6, volume=vol, multi_disp=md)
+            except Exception:  # noqa: BLE001
+                pass
+            c["n0"] = len(wl)
         wl.reagent_distribution(a["src_rack_label"], rng["src_start"], rng["src_end"], a["dst_rack_label"], rng["dst_start"], rng["dst_end"], volume=vol,
                                 diti_reuse=reuse, multi_disp=md, exclude_wells=ex, liquid_class=a["liquid_class"], direction=direction,
                                 src_rack_id=a["src_rack_id"], src_rack_type=a["src_rack_type"], dst_rack_id=a["dst_rack_id"], dst_rack_type=a["dst_rack_type"])
@@ -221,7 +229,7 @@ def judge(ctx, p, outcome):
     if part in ("well", "wellfp"):
         judge_well(ctx, p, c, recs)
     elif part == "reagent":
-        judge_reagent(ctx, p, c, recs)
+        judge_reagent(ctx, p, c, recs[c.get("n0", 0):])
     elif part == "comment":
         judge_comment(ctx, p, c, recs)
     elif part == "misc":
@@ -484,7 +492,7 @@ def judge_misc(ctx, p, c, recs):
 def describe(ctx, p, outcome):
     c = ctx.ctx
     parts = [f"  part={c.get('part')}"]
-    for k in ("a", "pos", "vol", "m", "tipk", "rng", "direction", "ex", "md", "s", "what", "arg", "pre", "diti", "label"):
+    for k in ("a", "pos", "vol", "m", "tipk", "rng", "direction", "ex", "md", "s", "what", "arg", "pre", "diti", "label", "earlier", "n0"):
         if k in c:
             parts.append(f"  {k}={c[k]!r}")
     parts.append(f"  records={list(c['wl'])!r}" if "wl" in c else "")
